@@ -20,8 +20,9 @@ NOT_DECIDED = [
 ]
 
 
-def container_ops(ctx, rule, body, adt, field, allowed, must_have, tkey):
-    """classify every call on <adt>.<field> inside body"""
+def container_ops(ctx, rule, body, adt, field, allowed, must_have, tkey, modelled=False):
+    """classify every call on <adt>.<field> inside body; with modelled=True the content effect of the method has been
+    decided by the sequence algebra (seqalg), so operations outside the table are not inconclusive"""
     ops = lib.field_method_calls(body, adt, field)
     ctx.touch(body, calls=len(ops))
     classes = []
@@ -33,6 +34,8 @@ def container_ops(ctx, rule, body, adt, field, allowed, must_have, tkey):
             if cl is None:
                 if n is name and short.split("::")[-1] in ("deref", "deref_mut", "iter", "len", "is_empty", "borrow", "borrow_mut", "as_mut", "as_ref", "next", "enumerate", "into_iter"):
                     cl = "lookup"
+                elif modelled:
+                    continue
                 else:
                     ctx.fail(rule, "%s:unclassified-callee:%s" % (tkey, short), body.loc(b),
                              "operation %s on %s.%s is not in the container-order table (inconclusive)" % (sn, adt, field))
@@ -41,6 +44,8 @@ def container_ops(ctx, rule, body, adt, field, allowed, must_have, tkey):
             if cl == "order-destroying":
                 ctx.fail(rule, "%s:%s" % (tkey, short), body.loc(b),
                          "%s on %s.%s does not preserve arrival order" % (sn, adt, field))
+            elif cl not in allowed and modelled:
+                continue
             elif cl not in allowed:
                 ctx.fail(rule, "%s:unexpected-%s:%s" % (tkey, cl, short), body.loc(b),
                          "%s (%s) is not an operation this function may apply to %s.%s" % (sn, cl, adt, field))
@@ -48,7 +53,7 @@ def container_ops(ctx, rule, body, adt, field, allowed, must_have, tkey):
                 ctx.ok(rule, "%s:%s" % (tkey, short), body.loc(b), "%s is %s" % (sn, cl))
     if "first-match-search" in must_have and "first-match-search" not in classes and lib.loop_first_match(body, adt, field):
         classes.append("first-match-search")     # explicit `for .. enumerate() { if eq { .. break } }` form
-    for m in must_have:
+    for m in ([] if modelled else must_have):
         ctx.check(m in classes, rule, "%s:has-%s" % (tkey, m), "%s:%d" % (body.file, body.line),
                   "%s applies a %s operation to %s.%s" % (tkey, m, adt, field),
                   "%s has no %s operation on %s.%s" % (tkey, m, adt, field))
@@ -120,25 +125,43 @@ def check(ctx):
     }
     methods = {m.raw.get("name"): m for m in A.methods_of(prog, qname)}
     ctx.floor("C12.b", len(methods), 4, "queue methods")
+    import seqalg
+    qfacts = prog.adts[qty]
     for name, m in sorted(methods.items()):
         allowed, must = spec.get(name, ({"append-ordered", "order-preserving-remove", "lookup"}, []))
-        container_ops(ctx, "C12.b", m, qty, qfield, allowed, must, "%s::%s" % (qname, name))
-        # whole-field replacement is allowed only as mem::replace/take of the whole queue (order kept inside the value)
-    # pop_front really pops the front: callee is VecDeque::pop_front (classified above); push is push_back.
-    if "pop_front" in methods:
-        names = [mir.strip_generics(n) for _, _, n, _ in lib.field_method_calls(methods["pop_front"], qty, qfield)]
-        ctx.check(any(n.endswith("VecDeque::pop_front") for n in names), "C12.b", "%s::pop_front:pops-front" % qname,
-                  "%s:%d" % (methods["pop_front"].file, methods["pop_front"].line), "removes from the front",
-                  "pop_front does not remove from the front of the queue: %s" % names)
-    if "append" in methods:
-        m = methods["append"]
-        ok = False
-        for b, t, n, chain in lib.field_method_calls(m, qty, qfield):
-            if mir.strip_generics(n).endswith("VecDeque::append") and len(t["args"]) > 1:
-                ok = lib.originates_from_arg(m, t["args"][1], 2)
-        ctx.check(ok, "C12.b", "%s::append:appends-argument-behind-existing" % qname, "%s:%d" % (m.file, m.line),
-                  "existing commands stay in front of the appended ones",
-                  "append does not append its argument behind the existing queue")
+        # content contract of the method's role, decided by symbolic execution of every path (rules/seqalg.py)
+        res = seqalg.analyse_method(prog, m, qfacts)
+        contract = seqalg.check_contract(res, qfield)
+        conclusive = bool(contract) and not any(k.startswith(("unclassified-callee", "inconclusive")) for k, _, _ in contract)
+        ctx.touch(m, states=res.get("explored", 0))
+        agg = {}
+        for k, ok, detail in contract:
+            cur = agg.get(k)
+            if cur is None or (cur[0] and not ok):
+                agg[k] = (ok, detail)
+        for k, (ok, detail) in sorted(agg.items()):
+            if k.startswith(("unclassified-callee", "inconclusive")) :
+                continue     # reported by the operation table below
+            ctx.check(ok, "C12.b", "%s::%s:%s" % (qname, name, k), "%s:%d" % (m.file, m.line), "role %s: %s" % (res["role"], detail),
+                      "role %s: %s" % (res["role"], detail))
+        container_ops(ctx, "C12.b", m, qty, qfield, allowed, must, "%s::%s" % (qname, name), modelled=conclusive)
+        if not conclusive:
+            ctx.notes.append("sequence algebra inconclusive for %s::%s (%s): falling back to the operation table" % (qname, name, [k for k, _, _ in contract][:3]))
+        if conclusive or name not in ("pop_front", "append"):
+            continue
+        names = [mir.strip_generics(n) for _, _, n, _ in lib.field_method_calls(m, qty, qfield)]
+        if name == "pop_front":
+            ctx.check(any(n.endswith("VecDeque::pop_front") for n in names), "C12.b", "%s::pop_front:pops-front" % qname,
+                      "%s:%d" % (m.file, m.line), "removes from the front",
+                      "pop_front does not remove from the front of the queue: %s" % names)
+        if name == "append":
+            ok = False
+            for b, t, n, chain in lib.field_method_calls(m, qty, qfield):
+                if mir.strip_generics(n).endswith("VecDeque::append") and len(t["args"]) > 1:
+                    ok = lib.originates_from_arg(m, t["args"][1], 2)
+            ctx.check(ok, "C12.b", "%s::append:appends-argument-behind-existing" % qname, "%s:%d" % (m.file, m.line),
+                      "existing commands stay in front of the appended ones",
+                      "append does not append its argument behind the existing queue")
     # ---- C12.c replay visits front to back, and postponing pushes at the back ----
     R = ctx.anchor("C12.c", lambda: A.runner(prog), "runner")
     if R is None:
